@@ -342,3 +342,50 @@ pub fn merge_accs(report: &crate::report::Report, accs: Vec<Acc>, names: &[&str]
     }
     max
 }
+
+
+// ------------------------------------------------------------------------------------------
+// Histories with inspections are histories too. The walkers of C01 / C02 / C06 / C12 call these at every
+// node: a temporary view or temporary decoder that is dropped again must leave the coder exactly as it was
+// (so every continuation of the inspected coder is a continuation of the uninspected one), and what the view
+// shows must be what finishing the coder at that moment returns.
+
+pub fn range_inspection_changes<C: Cfg>(enc: &RangeEncoder<C::W, C::S>) -> Option<String> {
+    use constriction::NonZeroBitArray;
+    let sealed = to_u128(&enc.clone().into_compressed().expect("HARNESS: Vec backend"));
+    let mut t = enc.clone();
+    let view = to_u128(&t.get_compressed());
+    if view != sealed {
+        return Some(format!("get_compressed() shows {:x?} but finishing the encoder returns {:x?}", view, sealed));
+    }
+    {
+        let _d = t.decoder();
+    }
+    let (b1, s1, sit1) = t.into_raw_parts();
+    let (b0, s0, sit0) = enc.clone().into_raw_parts();
+    let sit = |s: &EncoderSituation<C::W>| match s { EncoderSituation::Normal => (0usize, 0u128), EncoderSituation::Inverted(n, w) => (n.get(), (*w).into()) };
+    if to_u128(&b1) != to_u128(&b0) || s1.lower().into() != s0.lower().into() || s1.range().get().into() != s0.range().get().into() || sit(&sit1) != sit(&sit0) {
+        return Some(format!("after get_compressed() + decoder() the encoder is (bulk {:x?}, lower {:#x}, range {:#x}, situation {:?}) instead of (bulk {:x?}, lower {:#x}, range {:#x}, situation {:?})",
+            to_u128(&b1), s1.lower().into(), s1.range().get().into(), sit(&sit1), to_u128(&b0), s0.lower().into(), s0.range().get().into(), sit(&sit0)));
+    }
+    None
+}
+
+pub fn ans_inspection_changes<C: Cfg>(c: &AnsCoder<C::W, C::S>) -> Option<String> {
+    let finished = ans_export::<C>(c);
+    let mut t = c.clone();
+    let view = to_u128(&t.get_compressed().expect("HARNESS: Vec backend"));
+    if view != finished {
+        return Some(format!("get_compressed() shows {:x?} but finishing the coder returns {:x?}", view, finished));
+    }
+    let it: Vec<C::W> = t.iter_compressed().collect();
+    if to_u128(&it) != finished {
+        return Some(format!("iter_compressed() yields {:x?} but finishing the coder returns {:x?}", to_u128(&it), finished));
+    }
+    let _ = t.get_binary().map(|g| g.len());
+    if to_u128(t.bulk()) != to_u128(c.bulk()) || t.state().into() != c.state().into() {
+        return Some(format!("after get_compressed() + get_binary() the coder is (bulk {:x?}, state {:#x}) instead of (bulk {:x?}, state {:#x})",
+            to_u128(t.bulk()), t.state().into(), to_u128(c.bulk()), c.state().into()));
+    }
+    None
+}
